@@ -552,6 +552,18 @@ def namesOK : Expr → Bool
   | .fn2 _ a b => namesOK a && namesOK b
   | .ite c a b => namesOK c && namesOK a && namesOK b
 
+/-- a condition of the assertion language over identifiers -/
+def okE (e : Expr) : Bool := wfC e && namesOK e
+
+/-- a program whose guards and invariants are such conditions and whose assigned expressions are
+arithmetic expressions of the assertion language over identifiers -/
+def okCom : Com → Bool
+  | .skip => true
+  | .assign _ e => wfA e && namesOK e
+  | .seq c1 c2 => okCom c1 && okCom c2
+  | .cond b c1 c2 => okE b && okCom c1 && okCom c2
+  | .while b inv c => okE b && okE inv && okCom c
+
 /-! ## `imp.vcg` (the HOL-level generator of imperative/imp.py)
 
 `imp.vcg T (Valid P c Q)` applies `pre_rule` to `compute_wp`, whose `While` case assumes
